@@ -23,6 +23,7 @@ from sa.pyfront import Program
 from sa.symex import Interp
 
 RULES = {
+    "R-C05-h": "the walk presents every non-empty uncommon and marginal combination exactly once (imported from the C14 schema analysis): the split between visited cells and differenced cells is the only place where the choice of common value enters",
     "R-C05-g": "the index methods the cubes read a dimension through (slices1d, sliced, items, get, common_rowids, copy) write nothing on the index (imported from the C17 frame analysis): a memo kept on the index survives an in-place shift_common and feeds the old entry set to the next cube",
     "R-C05-f": "every near-zero test that decides 'this differenced counter is zero' (adjust_zeros' default, ffunc_count/xfunc_count.reduce) uses isclose(x, 0) with NumPy's default absolute tolerance, as documented - not a narrower one",
     "R-C05-e": "every index-cube grand total is the all-rows instance of its per-cell value (per fact column), so the cell reconstructed at the common coordinate does not depend on which category is common",
@@ -233,6 +234,17 @@ def main(tier):
             c17.analyse_root(prog, f17, "pure", rep, st17, RA="R-C05-g", RB="R-C05-g", extra=False)
             k17 += 1
     rep.floor("R-C05-g", 5, k17)
+    # R-C05-h: which category is encoded as `common` decides which combinations the walk visits and which it leaves to
+    # marginal differencing; the result is encoding-independent only if the walk presents EVERY non-empty uncommon and
+    # marginal combination exactly once, for every dimension count: the C14 schema analysis
+    import c14
+    sub14 = core.Report("C14", level="other", rules=c14.RULES, tier=tier)
+    c14.analyse(prog, sub14)
+    c14.walk_rules(prog, sub14)
+    for o in sub14.obls:
+        rep.add("R-C05-h", o.where, "[%s] %s" % (o.rule, o.construct), o.status, o.detail, True,
+                o.witness if o.status != "VIOLATED" else {"history": "three dimensions, the middle one re-encoded to a rare common value: marginal cells are never written and the differenced common cells come out negative"})
+    rep.floor("R-C05-h", 30, len(sub14.obls))
     return rep.finish()
 
 
